@@ -115,6 +115,41 @@ func GenMutation(t *rapid.T, toks []Tok, hostilePct int) Mutation {
 	if len(toks) < 2 && k == "transpose" {
 		k = "replace"
 	}
+	// '=' slipped in after some identifier: legal only where the grammar
+	// allows an assignment to start
+	if Chance(t, 10, "asgafterident") {
+		var at, afterOp []int
+		for i, tk := range toks {
+			if tk.K == KWord && !IsKeyword(tk.S) {
+				at = append(at, i)
+				if i > 0 {
+					switch toks[i-1].S {
+					case "and", "or", "not", "+", "-", "*", "/", "==", "!=", "<", ">", "<=", ">=":
+						afterOp = append(afterOp, i)
+					}
+				}
+			}
+		}
+		if len(afterOp) > 0 && Bool(t, "afterop") {
+			at = afterOp
+		}
+		if len(at) > 0 {
+			return Mutation{Kind: "insert", At: Pick(t, "asgat", at) + 1, Tok: P("=")}
+		}
+	}
+	// a typo-like replacement by a confusable token
+	if Chance(t, 15, "confusable") {
+		var at []int
+		for i, tk := range toks {
+			if _, ok := confusable[tk.S]; ok {
+				at = append(at, i)
+			}
+		}
+		if len(at) > 0 {
+			i := Pick(t, "confat", at)
+			return Mutation{Kind: "replace", At: i, Tok: Pick(t, "conftok", confusable[toks[i].S])}
+		}
+	}
 	switch k {
 	case "delete":
 		return Mutation{Kind: k, At: Uniform(t, len(toks), "at")}
@@ -124,4 +159,31 @@ func GenMutation(t *rapid.T, toks []Tok, hostilePct int) Mutation {
 		return Mutation{Kind: k, At: Uniform(t, len(toks), "at"), Tok: pickTok()}
 	}
 	return Mutation{Kind: "transpose", At: Uniform(t, len(toks)-1, "at")}
+}
+
+var confusable = map[string][]Tok{
+	"==":    {P("="), P("!="), P("<=")},
+	"=":     {P("=="), P(":"), P("->")},
+	"!=":    {P("=")},
+	"<=":    {P("<"), P("=")},
+	">=":    {P(">"), P("=")},
+	"<":     {P("<=")},
+	"(":     {P("{"), P(")")},
+	")":     {P("}"), P("(")},
+	"{":     {P("("), P("}")},
+	"}":     {P(")"), P("{")},
+	"and":   {W("or"), W("not")},
+	"or":    {W("and"), W("not")},
+	"not":   {W("and"), P("-")},
+	":":     {P(";"), P("=")},
+	";":     {P(":")},
+	"->":    {P("-"), P(">"), P("=")},
+	"-":     {P("->")},
+	"var":   {W("eval"), W("v")},
+	"eval":  {W("var"), W("print")},
+	"print": {W("eval"), W("printx")},
+	"def":   {W("var"), W("bind")},
+	"bind":  {W("def"), W("print")},
+	"true":  {W("nil"), W("True")},
+	"nil":   {W("not"), W("null")},
 }
